@@ -1,5 +1,5 @@
 #!/bin/bash
-# usage: tools/run_mutant.sh <patch.diff> <tag> <prop> [prop...]
+# usage: tools/run_mutant.sh <patch.diff> <tag> <prop> [prop...]      (env: TIER, CHECK_ARGS)
 # Evaluates the registered checks against a scratch worktree of /repo with the
 # patch applied (VERIF_REPO), so /repo itself is never touched and several
 # mutants can be evaluated concurrently.  Results: /tmp/mutres/<tag>/<prop>.log
@@ -12,7 +12,7 @@ git -C /repo worktree add -q --detach "$wt" HEAD || exit 3
 if ! git -C "$wt" apply "$patch"; then echo "PATCH DOES NOT APPLY"; git -C /repo worktree remove --force "$wt"; exit 3; fi
 cd /verif
 for p in "$@"; do
-  VERIF_REPO=$wt VERIF_EVIDENCE_DIR=/tmp/mutres/$tag ./check $p --tier ${TIER:-quick} > /tmp/mutres/$tag/$p.log 2>&1
+  VERIF_REPO=$wt VERIF_EVIDENCE_DIR=/tmp/mutres/$tag ./check $p --tier ${TIER:-quick} ${CHECK_ARGS:-} > /tmp/mutres/$tag/$p.log 2>&1
   echo "$tag $p exit=$? $(grep -E '^(VIOLATION|INCONCLUSIVE|OK|KNOWN)' /tmp/mutres/$tag/$p.log | head -3 | tr '\n' ' ')"
 done
 git -C /repo worktree remove --force "$wt"
